@@ -166,7 +166,7 @@ class _Pty:
                 pass
 
 
-def run_unget(tables, items, pieces, enc, pipe, ctx=False, sigint=False):
+def run_unget(tables, items, pieces, enc, pipe, ctx=False, sigint=False, mode="bytes"):
     """The keypresses `items` reach an Input (bytes naming) through unget_bytes in pieces of `pieces` items each (the
     way a window hands over what it read past a cursor report), one request after every piece - so a piece arrives
     while earlier keypresses are still buffered - then requests until nothing comes any more."""
@@ -182,11 +182,11 @@ def run_unget(tables, items, pieces, enc, pipe, ctx=False, sigint=False):
             cap = sum(len(x) for x in items) + 6
             for x in (k.events if isinstance(k, cevents.PasteEvent) else [k])[:cap]:
                 if len(keys) < cap:
-                    keys.append(list(x) if isinstance(x, bytes) else [-1])
+                    keys.append(list(x) if isinstance(x, bytes) else _unname(x, mode, enc))
         return k
     term = _Pty() if ctx else None
     try:
-        inp = cinput.Input(in_stream=term if ctx else pipe, keynames=tables.modes["bytes"], sigint_event=bool(sigint))
+        inp = cinput.Input(in_stream=term if ctx else pipe, keynames=tables.modes[mode], sigint_event=bool(sigint))
         pos = 0
         k = 0
         while pos < len(items):
@@ -219,7 +219,23 @@ def run_unget(tables, items, pieces, enc, pipe, ctx=False, sigint=False):
     return {"keys": keys, "exc": exc}
 
 
-def run_pipe(tables, items, enc, pipe, highfd=False, sigint=False):
+def _unname(x, mode, enc):
+    """a keypress handed back under a str naming mode, as the bytes it stands for: the table sequence with that name, or
+    the characters encoded (bytes naming: anything that is not bytes is recorded as [-1])"""
+    if mode == "bytes" or not isinstance(x, str):
+        return [-1]
+    from curtsies import events as cevents
+    table = cevents.CURTSIES_NAMES if mode == "curtsies" else cevents.CURSES_NAMES
+    for seq, name in table.items():
+        if name == x:
+            return list(seq)
+    try:
+        return list(x.encode(pyenc(enc)))
+    except Exception:  # noqa
+        return [-1]
+
+
+def run_pipe(tables, items, enc, pipe, highfd=False, sigint=False, mode="bytes"):
     """End to end: the keypresses `items` (byte strings) are written to the pipe an Input (bytes naming, paste
     detection on) reads from - all of them have arrived before the first request - and requests with timeout 0
     are made until nothing comes any more.  Returns the keys handed back (pastes flattened) and what was raised."""
@@ -232,7 +248,7 @@ def run_pipe(tables, items, enc, pipe, highfd=False, sigint=False):
     try:
         os.write(pipe.w, data)
         stream = _HighFd(pipe.r) if highfd else pipe      # the same pipe under a descriptor number above 256
-        inp = cinput.Input(in_stream=stream, keynames=tables.modes["bytes"], sigint_event=bool(sigint))
+        inp = cinput.Input(in_stream=stream, keynames=tables.modes[mode], sigint_event=bool(sigint))
         quiet = 0
         for _ in range(len(data) + 10):
             try:
@@ -247,7 +263,7 @@ def run_pipe(tables, items, enc, pipe, highfd=False, sigint=False):
                 continue
             quiet = 0
             for x in (k.events if isinstance(k, cevents.PasteEvent) else [k])[:len(data) + 6]:
-                keys.append(list(x) if isinstance(x, bytes) else [-1])
+                keys.append(list(x) if isinstance(x, bytes) else _unname(x, mode, enc))
             if len(keys) > len(data) + 5:
                 # more keypresses than bytes were written: recorded up to here (the verdict fails on them), no need to go on
                 del keys[len(data) + 5:]
